@@ -83,7 +83,7 @@ def adz_apply_obligations(ctx, prefix):
                 tb = BranchRec('target', old)
                 tab = TabRec()
                 tgt = Holder(adds=groups, branch=tb, node=node)
-                selfm = Holder(tableau=tab, rule=Holder(ticking=ticking), _cls=H.AdzHelper)
+                selfm = Holder(tableau=tab, rule=Holder(ticking=ticking, tableau=tab), _cls=H.AdzHelper)      # Rule.Helper.tableau is rule.tableau
                 def run(path):
                     it = Interp(path, World())
                     return it.call_source(fi, func, H.AdzHelper, [selfm, tgt], {})
